@@ -405,7 +405,9 @@ def cart2geodetic(x, y, z, ellipsoid=None):
 
     lon = np.rad2deg(np.arctan2(y, x))
     B0 = np.arctan2(z, np.hypot(x, y))
-    B = np.ones(B0.shape)
+    # start value of the previous iterate: never within the tolerance of a latitude, so
+    # that the loop below is always entered (B0 = 1 rad used to skip it and leave h unset)
+    B = np.full(B0.shape, np.inf)
     e2 = ellipsoid[1]**2
     if e2 == 0.0:
         h, lat, lon = cart2geocentric(x, y, z)
